@@ -8,7 +8,7 @@ from fractions import Fraction
 
 import numpy as np
 
-from .. import gen_lif
+from .. import gen_evloop, gen_lif
 from ..driver import BUILD, COQ, ROOT, Infra
 from .common import Outcome, quiet
 
@@ -16,13 +16,16 @@ ID = "C20"
 COQ_IMPORT = "Corr.C20"
 COQ_CASE_TYPE = "c20_case"
 COQ_CHECK = "c20_check"
-GENERATORS = [gen_lif.main]
+GENERATORS = [gen_lif.main, gen_evloop.main]
 THEOREMS = ["c20_zero", "c20_semigroup", "c20_ode", "c20_limit", "c20_spike_time", "c20_no_spike", "c20_reset",
             "c20_record_step_partial", "c20_cuba_euler", "c20_spikes_independent_of_record_dt",
-            "c20_voltages_independent_of_record_dt", "c20_laws_hold_for_if_neuron"]
-PROOF_FILES = ["Proofs/LifProofs.v", "Proofs/EventLoopProofs.v"]
+            "c20_voltages_independent_of_record_dt", "c20_laws_hold_for_if_neuron",
+            "c20_lif_spikes_independent_of_record_dt", "c20_lif_voltages_independent_of_record_dt", "c20_lif_run_defined"]
+PROOF_FILES = ["Proofs/LifProofs.v", "Proofs/EventLoopProofs.v", "Proofs/EventLoopRProofs.v", "Proofs/LifLoopProofs.v"]
 TRUSTED_LOOP = "Model/EventLoop.v: hand-written model of run_event_based_simulation, tied by exact event-by-event correspondence"
-TRUSTED = ["harness/gen_lif.py: fail-closed Python-AST -> Coq(R) translator of advance_by_delta_t, calc_next_spike_time, "
+TRUSTED = ["harness/gen_evloop.py: mechanical port of Section Loop of Model/EventLoop.v from Q to R (Gen/EventLoopR.v, regenerated "
+           "every run, fail-closed on any rational operation it does not know); the LIF loop theorems are about that port",
+           "harness/gen_lif.py: fail-closed Python-AST -> Coq(R) translator of advance_by_delta_t, calc_next_spike_time, "
            "apply_reset and CubaLIFImplementation.forward (the theorems are about the translated terms)",
            "Coquelicot (is_derive, is_lim) and Interval (numeric validation of sampled float results against the R terms)"]
 RULE = ("parameter sets tau in (1e-3, 1), R in [-3,3], v_leak in [-1,1] (mostly != 0), v_threshold > v_leak, initial voltage "
@@ -35,8 +38,9 @@ RULE = ("parameter sets tau in (1e-3, 1), R in [-3,3], v_leak in [-1,1] (mostly 
         "R != 1")
 ASSUMPTIONS = ["floating-point rounding of the shipped scripts is not modelled: theorems are about exact reals; float "
                "results are compared with tolerances scaled to the magnitudes",
-               "the event loop itself is not modelled in Coq (record-interval independence: inductive step proved, loop "
-               "level checked on the code)"]
+               "the event loop is modelled generically (Model/EventLoop.v over Q, tied to the real loop by an exact "
+               "event-by-event correspondence on dyadic data); the theorems about the LIF neuron are about its mechanical "
+               "port to R instantiated with the translated closed forms"]
 
 
 def load_lif():
